@@ -97,6 +97,10 @@ PutDone(ok, n, issuer, locok) ==
        ELSE /\ n >= confirmed /\ n <= confirmed + maybe           \* (c)
             /\ n < cfg.want
             /\ Cardinality(Accepting) < cfg.want                  \* (f)
+            \* (e) "transient failures are retried up to the retry limit": a Put that gives up
+            \* has asked every service whose latest answer was a transient failure as often as
+            \* the retry limit allows
+            /\ \A s \in cfg.writable : last[s] \in Transient => attempts[s] = 1 + cfg.retries
     /\ done' = IF ok THEN "ok" ELSE "err"
     /\ UNCHANGED <<cfg, attempts, last, allok, everok, confirmed, maxrep, maybe>>
 
